@@ -245,6 +245,9 @@ def taggedStep (g : St → Bag → String → St × Bag × Except String RV)
   | (st', bag', .ok v) => (st', bag', vals ++ [v], none)
   | (st', bag', .error e) => (st', bag', vals, some e)
 
+/-- the fixture symbol `name` of some package, or of the generated package itself (no package part) -/
+def isFixture (sym name : String) : Bool := sym == name || sym.endsWith ("." ++ name)
+
 /-- creation of the object of a live service: constructor call (arguments resolved first), value expression, or the
 zero value of the declared type -/
 def createObj (ras : St → Bag → List Output.Arg → St × Bag × Except String (List RV)) (p : Prog) (s : Output.Service)
@@ -254,10 +257,10 @@ def createObj (ras : St → Bag → List Output.Arg → St × Bag × Except Stri
     | (st, bag, .error e) => (st, bag, .error ("constructor args: " ++ e))
     | (st, bag, .ok vals) =>
       let sym := symbol p s.constructor
-      if sym.endsWith ".NewFail" then (st, bag, .error "constructor: boom")
+      if isFixture sym "NewFail" then (st, bag, .error "constructor: boom")
       else
         let (st, n) := alloc st { ctor := sym, args := vals }
-        (st, bag, .ok (.ref (!sym.endsWith ".NewVal") n))
+        (st, bag, .ok (.ref (!isFixture sym "NewVal") n))
   else if s.value != "" then
     -- the value expression is evaluated at every construction: a struct literal (`&pkg.Obj{}` / `pkg.Obj{}`) is a
     -- fresh object each time (it can then receive fields and calls of its own); other expressions denote what they name
